@@ -413,35 +413,50 @@ func TestVerifMgrEpMgr(t *testing.T) {
 		if batched {
 			r = reps
 		}
-		d.start(cfgs[bi%len(cfgs)], r)
-		flushed := true
-		for i, op := range b {
-			switch vmStr(op["op"]) {
-			case "update":
-				id := vmIDInts(op["id"])
-				d.update(id, vmGenSpec(id, vmStr(op["name"]), vmBool(op["up"]), i+1))
-				flushed = false
-			case "remove":
-				d.remove(vmIDInts(op["id"]))
-				flushed = false
-			case "flush":
-				d.flush(t)
-				flushed = true
-			case "end":
-			default:
-				t.Fatalf("unknown op %v", op)
+		func() {
+			// a panic of the real manager is an observation the specification never accepts
+			defer func() {
+				if rec := recover(); rec != nil {
+					d.log.Emit("panic", map[string]any{"msg": fmt.Sprint(rec)})
+				}
+			}()
+			d.start(cfgs[bi%len(cfgs)], r)
+			flushed := true
+			for i, op := range b {
+				switch vmStr(op["op"]) {
+				case "update":
+					id := vmIDInts(op["id"])
+					d.update(id, vmGenSpec(id, vmStr(op["name"]), vmBool(op["up"]), i+1))
+					flushed = false
+				case "remove":
+					d.remove(vmIDInts(op["id"]))
+					flushed = false
+				case "flush":
+					d.flush(t)
+					flushed = true
+				case "end":
+				default:
+					t.Fatalf("unknown op %v", op)
+				}
 			}
-		}
-		if !flushed {
-			d.flush(t)
-		}
+			if !flushed {
+				d.flush(t)
+			}
+		}()
 	}
 	seed := vmSeed()
 	for i := 0; i < vmN(); i++ {
 		if lg.Skip(only) {
 			continue
 		}
-		d.random(t, rand.New(rand.NewSource(seed*1000003+int64(i))), reps)
+		func() {
+			defer func() {
+				if rec := recover(); rec != nil {
+					d.log.Emit("panic", map[string]any{"msg": fmt.Sprint(rec)})
+				}
+			}()
+			d.random(t, rand.New(rand.NewSource(seed*1000003+int64(i))), reps)
+		}()
 	}
 	lg.Close(t)
 }
